@@ -50,6 +50,29 @@ func c15Pair(seed uint64, shape string) *lib.Pair {
 		p.New.PutFile(last, append(append([]byte(nil), olds[0][:lib.BS]...), olds[n-1][:lib.BS]...))
 		p.Feat["equal-shares"] = true
 		return p
+	case "fragmented":
+		// heavily fragmented similarity: the new file is the old one cut into small pieces and shuffled, so every
+		// scanner block yields far more matches than a worker's result channel holds (256)
+		p := &lib.Pair{Old: lib.NewBuild(), New: lib.NewBuild(), Feat: map[string]bool{}}
+		o := lib.RandomBytes(int64(r.Range(5, 12))*lib.BS, r.Uint64())
+		piece := r.PickInt([]int{96, 192, 300})
+		var pieces [][]byte
+		for off := 0; off < len(o); off += piece {
+			e := off + piece
+			if e > len(o) {
+				e = len(o)
+			}
+			pieces = append(pieces, o[off:e])
+		}
+		r.Shuffle(len(pieces), func(i, j int) { pieces[i], pieces[j] = pieces[j], pieces[i] })
+		var nd []byte
+		for _, pc := range pieces {
+			nd = append(nd, pc...)
+		}
+		p.Old.PutFile("frag.bin", o)
+		p.New.PutFile("frag.bin", nd)
+		p.Feat["fragmented-similarity"] = true
+		return p
 	case "bigfresh":
 		// a run of unmatched data that spans the differ's 4 MiB + 2 block working buffer: where DATA ops are
 		// cut must not depend on how the source slices its reads
@@ -93,7 +116,7 @@ func c15Cases(tier string, seed uint64, flavor string) []lib.Case {
 		}
 	}
 	comps := []lib.Comp{{Algo: "none"}, {Algo: "gzip", Quality: 1}, {Algo: "brotli", Quality: 1}, {Algo: "none"}}
-	shapes := []string{"generic", "shares", "tiny", "edges", "bigfresh", "shares", "generic"}
+	shapes := []string{"generic", "shares", "tiny", "edges", "bigfresh", "shares", "fragmented", "generic"}
 	var cases []lib.Case
 	for i := 0; i < n; i++ {
 		s := c15Spec{PairSeed: lib.Mix(seed, 15, uint64(i)), Shape: shapes[i%len(shapes)], Comp: comps[i%len(comps)], Runs: runs}
@@ -153,10 +176,22 @@ func c15Run(c lib.Case, env *lib.Env) lib.Result {
 		pw := &yieldWriter{rng: lib.NewRng(lib.Mix(cs, 1))}
 		sw := &yieldWriter{rng: lib.NewRng(lib.Mix(cs, 2))}
 		var sp *lib.ShortReadPool
-		_, err := lib.DiffDirs(oldDir, newDir, s.Comp, func(p lake.Pool) lake.Pool {
-			sp = &lib.ShortReadPool{Inner: p, Rng: lib.NewRng(lib.Mix(cs, 3)), Yield: run > 0, EOFWithData: run%3 == 2}
-			return sp
-		}, pw, sw)
+		var err error
+		hv := lib.RunWithQuiescence(func() {
+			_, err = lib.DiffDirs(oldDir, newDir, s.Comp, func(p lake.Pool) lake.Pool {
+				sp = &lib.ShortReadPool{Inner: p, Rng: lib.NewRng(lib.Mix(cs, 3)), Yield: run > 0, EOFWithData: run%3 == 2}
+				return sp
+			}, pw, sw)
+		}, 90*time.Second)
+		if !hv.Returned {
+			// no output at all under this CPU count / schedule
+			key := "diff-does-not-return"
+			if hv.Deadlock {
+				key = "diff-deadlock"
+			}
+			res.Violate(key, desc, fmt.Sprintf("run %d, GOMAXPROCS %d", run, procsList[run%len(procsList)]), hv.Report)
+			return res
+		}
 		if err != nil {
 			res.Violate("diff-error", desc, err.Error())
 			return res
@@ -201,8 +236,17 @@ func c15Run(c lib.Case, env *lib.Env) lib.Result {
 				if run%2 == 0 {
 					op.Stats = &bsdiff.DiffStats{} // statistics collection on: shared between the scanner's goroutines
 				}
-				err := lib.Optimize(firstPatch, oldDir, newDir, op, &ob)
+				var err error
+				hv := lib.RunWithQuiescence(func() { err = lib.Optimize(firstPatch, oldDir, newDir, op, &ob) }, 120*time.Second)
 				lib.SetHook(nil)
+				if !hv.Returned {
+					key := "optimizer-does-not-return"
+					if hv.Deadlock {
+						key = "optimizer-deadlock"
+					}
+					res.Violate(key, desc, fmt.Sprintf("params=%+v run %d, GOMAXPROCS %d", op, run, procsList[run%len(procsList)]), hv.Report)
+					return res
+				}
 				if err != nil {
 					res.Violate("optimizer-error", desc, err.Error())
 					break
